@@ -261,8 +261,13 @@ func (ld *Loaded) runSweep(kind, verifDir string) []*SweepResult {
 		}
 		sort.Strings(extra)
 		sort.Strings(gone)
-		r := &SweepResult{Name: fmt.Sprintf("sweep.%s#inventory:%s", kind, cat), OK: len(extra) == 0, Found: setToSorted(found[cat]), Expected: inv[cat]}
-		if len(extra) > 0 {
+		// new sort calls and new iterators whose prefix comes from a delimited key builder are not sources of
+		// nondeterminism / cross-consumer leakage by themselves: recorded, never an alarm
+		informational := cat == "sort_sites" || cat == "prefix_iterators" || cat == "range_iterators"
+		r := &SweepResult{Name: fmt.Sprintf("sweep.%s#inventory:%s", kind, cat), OK: len(extra) == 0 || informational, Found: setToSorted(found[cat]), Expected: inv[cat]}
+		if len(extra) > 0 && informational {
+			r.Detail = "new sites (informational): " + strings.Join(extra, "; ")
+		} else if len(extra) > 0 {
 			r.Detail = "sites not in the recorded inventory: " + strings.Join(extra, "; ")
 		} else if len(gone) > 0 {
 			r.Detail = "recorded sites no longer present (harmless): " + strings.Join(gone, "; ")
